@@ -6,7 +6,7 @@ Inv_SwapRecovers (they are the original shocks) and Inv_PlannedPathHolds. Bindin
 SimulationPlan + simulate(plan=...) under first_order and (level mode) stacked_time and compared: exogenized points hit, shocks recovered,
 whole path, untouched shocks unchanged.  Known finding: stacked_time ignores unanticipated targets dated after their instrument.
 """
-import os, math
+import os, math, zlib
 import numpy as np
 import irispie as ir
 from .. import tlc, tlaval
@@ -181,17 +181,18 @@ def run(chk):
         if out["recovered"] != out["truth"]:
             raise MachineryError("PlansMC: swap law false in dump")
         nsc += 1
+        h_ = zlib.crc32(repr(_plain(sc)).encode())       # (a sample that does not depend on the order of TLC's dump)
         check(chk, sc, out, "first_order")
         n += 1
-        if chk.tier == "thorough" or nsc % 2 == 0:
+        if chk.tier == "thorough" or h_ % 2 == 0:
             check(chk, sc, out, "first_order", split=True)
             n += 1
-        if chk.tier == "thorough" or nsc % 6 == 0:
+        if chk.tier == "thorough" or h_ % 6 == 0:
             # the same model declared deterministic (no std parameters: shocks are add-factors); the meaning of a plan is unchanged
             check(chk, sc, out, "first_order", deterministic=True)
             n += 1
             ndet += 1
-        if chk.tier == "thorough" or nsc % 6 == 3:
+        if chk.tier == "thorough" or h_ % 6 == 3:
             check(chk, sc, out, "first_order", edited=True)
             if not sc["dev"] and not (sc["mode"] == "unant" and any(p[1] != p[3] for p in out["pairs"])):
                 check(chk, sc, out, "stacked_time", edited=True)
